@@ -82,9 +82,10 @@ def check(run, repo):
         'compared with the documented mapping: one record per row in row order, ordinary columns under their trimmed '
         'header, element.X / formula -> composition dictionary, repeated vib_wavenumber / rot_temperature -> ordered '
         'lists, list.name(.i) and dict.name.key, nasa.a_low.i / a_high.i -> 7-slot arrays, statmech_model presets '
-        '(copied from the presets table unless the row set the key), per-mode model names resolved in the module of '
-        'their mode with the EmptyMode fallback; empty cells never appear and nothing leaks from one row into another '
-        '(rows with disjoint column subsets).')
+        '(the attributes the documentation lists per preset - the rule carries its own copy of that table -, unless '
+        'the row set the key), every documented per-mode model name resolved in the module of its mode with the '
+        'EmptyMode fallback; empty cells never appear and nothing leaks from one row into another (rows with disjoint '
+        'column subsets, rows that share a name or every cell, two rows using the same preset).')
     run.assumptions = ['pandas.read_excel is mocked: iterrows()/items() yield (header, cell) pairs in column order; '
                        'pandas.isnull is true exactly for empty cells']
     run.undecided = ['pandas behaviour itself (duplicate-header mangling, NaN detection, dtype guessing)',
@@ -167,6 +168,43 @@ def check(run, repo):
                       {'name': 'CO', 'elements': {'O': a('mO')}, 'vib_wavenumbers': [a('w3')], 'phase': 'G',
                        'misc': {'beta': a('d3')}}, 'row 2: other subset (nothing leaks from row 1)')
         expect_record(run, m, fn, I, out.items[2], {}, 'row 3: all cells empty')
+    # --- sheet 1b: repeated rot_temperature columns (pandas suffixes .1, .2) interleaved with repeated vib_wavenumber
+    #     columns: both lists keep the column order, an empty cell in the middle is left out ------------------------
+    rows = [
+        [('name', 'H2O'), ('rot_temperature', a('ta')), ('vib_wavenumber', a('wa')), (' rot_temperature.1 ', a('tb')),
+         ('vib_wavenumber.1', a('wb')), ('rot_temperature.2', a('tc')), ('vib_wavenumber.2', a('wc'))],
+        [('name', 'CO2'), ('rot_temperature', a('td')), ('vib_wavenumber', NAN), (' rot_temperature.1 ', NAN),
+         ('vib_wavenumber.1', a('wd')), ('rot_temperature.2', a('te')), ('vib_wavenumber.2', a('we'))],
+    ]
+    I, out, m, fn = run_reader(repo, rows)
+    if isinstance(out, ListV) and len(out) == 2:
+        expect_record(run, m, fn, I, out.items[0],
+                      {'name': 'H2O', 'rot_temperatures': [a('ta'), a('tb'), a('tc')],
+                       'vib_wavenumbers': [a('wa'), a('wb'), a('wc')]},
+                      'three rot_temperature columns: list in column order', 'set_rot_temperatures')
+        expect_record(run, m, fn, I, out.items[1],
+                      {'name': 'CO2', 'rot_temperatures': [a('td'), a('te')], 'vib_wavenumbers': [a('wd'), a('we')]},
+                      'three rot_temperature columns, middle cell empty', 'set_rot_temperatures')
+    else:
+        run.fail('REF.rows', 'excel.read_excel', 'sheet 1b', 'unexpected result %s' % show(out, 120), m, fn)
+    # --- sheet 1c: cells are arbitrary, so rows may agree in their name (or in every cell): still one record per row
+    rows = [
+        [('name', 'H2O'), ('phase', 'G'), ('potentialenergy', a('Ea'))],
+        [('name', 'H2O'), ('phase', 'L'), ('potentialenergy', a('Eb'))],
+        [('name', 'CO'), ('phase', 'G'), ('potentialenergy', a('Ec'))],
+        [('name', 'H2O'), ('phase', 'G'), ('potentialenergy', a('Ea'))],
+    ]
+    I, out, m, fn = run_reader(repo, rows)
+    ok = isinstance(out, ListV) and len(out) == 4
+    run.check(ok, 'REF.rows', 'excel.read_excel', 'rows sharing a name',
+              'four data rows, three of them named H2O (two identical in every cell), must give four records in row '
+              'order, got %s' % show(out, 160), m, fn)
+    if ok:
+        for rec, (nm, ph, e_), lab in zip(out.items, (('H2O', 'G', 'Ea'), ('H2O', 'L', 'Eb'), ('CO', 'G', 'Ec'),
+                                                      ('H2O', 'G', 'Ea')),
+                                          ('first', 'second (same name)', 'third', 'fourth (identical to the first)')):
+            expect_record(run, m, fn, I, rec, {'name': nm, 'phase': ph, 'potentialenergy': a(e_)},
+                          'rows sharing a name: ' + lab)
     # --- sheet 2: formula, NASA coefficients ---------------------------------------------------------------------
     rows = [
         [('name', 'CH3OH'), ('formula', 'CH3OH'), ('nasa.a_low.0', a('l0')), ('nasa.a_low.6', a('l6')),
@@ -207,36 +245,94 @@ def check(run, repo):
     if hasattr(presets, 'node'):
         preset_names = [k.value for k in presets.node.keys]
     run.floor('presets', len(preset_names), 5)
+    # the rule's own copy of the documented table (docs/source/api/statmech/statmech.rst, "Presets": the attributes
+    # each preset sets); the 'required' / 'optional' reminders are not part of that table and are taken from the
+    # table of a FRESH interpreter (never from the one that has just read rows)
+    S_ = 'pmutt.statmech'
+    doc_presets = {
+        'idealgas': {'trans_model': (S_ + '.trans', 'FreeTrans'), 'n_degrees': C(3),
+                     'vib_model': (S_ + '.vib', 'HarmonicVib'), 'elec_model': (S_ + '.elec', 'GroundStateElec'),
+                     'rot_model': (S_ + '.rot', 'RigidRotor')},
+        'harmonic': {'vib_model': (S_ + '.vib', 'HarmonicVib'), 'elec_model': (S_ + '.elec', 'GroundStateElec')},
+        'electronic': {'elec_model': (S_ + '.elec', 'GroundStateElec')},
+        'placeholder': {'trans_model': (S_, 'EmptyMode'), 'vib_model': (S_, 'EmptyMode'),
+                        'rot_model': (S_, 'EmptyMode'), 'elec_model': (S_, 'EmptyMode'),
+                        'nucl_model': (S_, 'EmptyMode')},
+        'constant': {'elec_model': (S_, 'ConstantMode')},
+    }
+
+    def documented(pname):
+        out_ = {}
+        for k, v in doc_presets[pname].items():
+            if isinstance(v, tuple):
+                cls_ = repo.module(v[0]).classes.get(v[1])
+                if cls_ is None:
+                    raise AnchorError('%s.%s not found' % v)
+                v = cls_
+            out_[k] = v
+        return out_
+
+    def is_set_attribute(k):
+        return k.endswith('_model') or k == 'n_degrees'
+    for pname in doc_presets:
+        run.check(pname in preset_names, 'TABLE.preset-class', 'statmech.presets', pname,
+                  'the documented preset %r is missing from the presets table' % pname, sm, presets.node)
     for pname in preset_names:
-        rows = [[('statmech_model', ' %s ' % pname.upper() if pname == 'idealgas' else pname), ('n_degrees', a('nd'))]]
+        fresh = Frame(I0, sm, {}, None, None).ev(__import__('ast').parse('presets[%r]' % pname, mode='eval').body)
+        doc = documented(pname) if pname in doc_presets else None
+        # what the preset contributes to a record: documented attributes + the reminders of the fresh table
+        contrib = {}
+        for k, v in fresh.d.items():
+            if doc is None or not (is_set_attribute(k) or k == 'model'):
+                contrib[k] = v
+        if doc is not None:
+            contrib.update(doc)
+        contrib['model'] = SM
+        # two rows with the same preset: the first fills a column left of statmech_model (symmetrynumber) and one
+        # right of it that the preset may also set (n_degrees); the second leaves both empty
+        rows = [[('symmetrynumber', a('sy')), ('statmech_model', ' %s ' % pname.upper() if pname == 'idealgas' else pname),
+                 ('n_degrees', a('nd')), ('potentialenergy', a('E1'))],
+                [('symmetrynumber', NAN), ('statmech_model', pname), ('n_degrees', NAN),
+                 ('potentialenergy', a('E2'))]]
         I, out, m, fn = run_reader(repo, rows)
-        table = Frame(I, sm, {}, None, None).ev(__import__('ast').parse('presets[%r]' % pname, mode='eval').body)
-        want = {'model': SM, 'n_degrees': a('nd')}
-        for k, v in table.d.items():
-            if k not in want:
-                want[k] = v
-        if isinstance(out, ListV) and len(out) == 1:
-            expect_record(run, m, fn, I, out.items[0], want, 'statmech_model=%s' % pname, 'set_statmech_model')
+        want1 = dict(contrib, symmetrynumber=a('sy'), n_degrees=a('nd'), potentialenergy=a('E1'))
+        want2 = dict(contrib, potentialenergy=a('E2'))
+        if isinstance(out, ListV) and len(out) == 2:
+            expect_record(run, m, fn, I, out.items[0], want1, 'statmech_model=%s' % pname, 'set_statmech_model')
+            expect_record(run, m, fn, I, out.items[1], want2,
+                          'statmech_model=%s, second row with the same preset (nothing of the first row in it)' % pname,
+                          'set_statmech_model')
         else:
             run.fail('REF.record', 'excel.set_statmech_model', 'statmech_model=%s' % pname,
                      'unexpected result %s' % show(out, 120), m, m.functions['set_statmech_model'])
-        # every model class the preset names exists in the module of its mode
-        for k, v in table.d.items():
-            if k.endswith('_model'):
-                mode = k.split('_')[0]
-                modname = 'pmutt.statmech.' + mode if mode != 'nucl' else 'pmutt.statmech.nucl'
-                okm = isinstance(v, ClassInfo) and (v.module.name in (modname, 'pmutt.statmech', 'pmutt.statmech.lsr'))
-                run.check(okm, 'TABLE.preset-class', 'statmech.presets', '%s.%s' % (pname, k),
-                          'preset %s names %s for %s, which is not a class of that mode\'s module' % (pname, show(v), k),
-                          sm, presets.node)
+        # the table itself: a documented preset sets exactly the documented attributes to the documented classes;
+        # a preset the documentation does not list must at least name classes of the module of their mode
+        if doc is not None:
+            got = {k: v for k, v in fresh.d.items() if is_set_attribute(k)}
+            okm = set(got) == set(doc) and all(val_same(got[k], doc[k]) for k in doc)
+            run.check(okm, 'TABLE.preset-class', 'statmech.presets', '%s: documented attributes' % pname,
+                      'preset %s sets %s, the documentation says %s' % (
+                          pname, {k: show(v, 40) for k, v in sorted(got.items())},
+                          {k: show(v, 40) for k, v in sorted(doc.items())}), sm, presets.node)
+        else:
+            for k, v in fresh.d.items():
+                if k.endswith('_model'):
+                    mode = k.split('_')[0]
+                    modname = 'pmutt.statmech.' + mode
+                    okm = isinstance(v, ClassInfo) and (v.module.name in (modname, 'pmutt.statmech', 'pmutt.statmech.lsr'))
+                    run.check(okm, 'TABLE.preset-class', 'statmech.presets', '%s.%s' % (pname, k),
+                              'preset %s names %s for %s, which is not a class of that mode\'s module'
+                              % (pname, show(v), k), sm, presets.node)
     r = run_reader(repo, [[('statmech_model', 'no such preset')]])
     run.check(isinstance(r[1], Raised) and r[1].exc == 'ValueError', 'PATH.unknown-preset', 'excel.set_statmech_model',
               'unknown preset', 'an unknown preset must raise ValueError (got %s)' % show(r[1]), m,
               m.functions['set_statmech_model'])
+    # every model class the API documentation lists per mode (docs/source/api/statmech/<mode>/), not a sample
     modes = (('trans', 'FreeTrans', 'pmutt.statmech.trans'), ('vib', 'HarmonicVib', 'pmutt.statmech.vib'),
-             ('vib', 'QRRHOVib', 'pmutt.statmech.vib'), ('rot', 'RigidRotor', 'pmutt.statmech.rot'),
+             ('vib', 'QRRHOVib', 'pmutt.statmech.vib'), ('vib', 'EinsteinVib', 'pmutt.statmech.vib'),
+             ('vib', 'DebyeVib', 'pmutt.statmech.vib'), ('rot', 'RigidRotor', 'pmutt.statmech.rot'),
              ('elec', 'GroundStateElec', 'pmutt.statmech.elec'), ('elec', 'LSR', 'pmutt.statmech.lsr'),
-             ('nucl', 'EmptyNucl', 'pmutt.statmech.nucl'))
+             ('elec', 'ExtendedLSR', 'pmutt.statmech.lsr'), ('nucl', 'EmptyNucl', 'pmutt.statmech.nucl'))
     for mode, cname, modname in modes:
         want_cls = repo.module(modname).classes.get(cname)
         if want_cls is None:
@@ -271,6 +367,9 @@ def check(run, repo):
 
 X_ = 'pmutt/io/excel.py'
 MUTANTS = [
+    {'name': 'row cells stored in the presets table', 'expect': ('REF.record', 'set_statmech_model'),
+     'edits': [(X_, "        for key, val in presets[model].items():\n            if key not in output_structure:\n                output_structure[key] = val",
+                    "        preset = presets[model]\n        preset.update(output_structure)\n        output_structure.update(preset)")]},
     {'name': 'record created outside the row loop', 'expect': ('REF', 'read_excel'),
      'edits': [(X_, "    for row, row_data in input_data.iterrows():\n        thermo_data = {}\n", "    thermo_data = {}\n    for row, row_data in input_data.iterrows():\n")]},
     {'name': 'empty cells stored', 'expect': ('REF.record', 'read_excel'),
@@ -283,5 +382,18 @@ MUTANTS = [
      'edits': [(X_, "            if key not in output_structure:\n                output_structure[key] = val", "            output_structure[key] = val")]},
     {'name': 'header not trimmed', 'expect': ('REF.record', 'read_excel'),
      'edits': [(X_, "            if isinstance(col, str):\n                col = col.strip()", "            if isinstance(col, str):\n                col = col")]},
+    {'name': 'rot temperatures prepended', 'expect': ('REF.record', 'set_rot_temperatures'),
+     'edits': [(X_, "        output_structure['rot_temperatures'].append(value)", "        output_structure['rot_temperatures'] = [value] + output_structure['rot_temperatures']")]},
+    {'name': 'vib models looked up in a table that forgets DebyeVib', 'expect': ('REF.record', 'set_vib_model'),
+     'edits': [(X_, "        output_structure['vib_model'] = getattr(vib, model)\n    except AttributeError:", "        output_structure['vib_model'] = {'HarmonicVib': vib.HarmonicVib, 'QRRHOVib': vib.QRRHOVib, 'EinsteinVib': vib.EinsteinVib}[model]\n    except KeyError:")]},
+    {'name': 'elec models no longer looked up in the lsr module', 'expect': ('REF.record', 'set_elec_model'),
+     'edits': [(X_, "            output_structure['elec_model'] = getattr(lsr, model)", "            output_structure['elec_model'] = {'LSR': lsr.LSR}[model]\n        except KeyError:\n            raise ValueError(model)")]},
+    {'name': 'rows with a name seen before are dropped', 'expect': ('REF.rows', 'read_excel'),
+     'edits': [(X_, "    thermos_out = []\n", "    thermos_out = []\n    names_found = set()\n"),
+               (X_, "        thermos_out.append(thermo_data)\n", "        name = thermo_data.get('name')\n        if name is not None:\n            if name in names_found:\n                continue\n            names_found.add(name)\n        thermos_out.append(thermo_data)\n")]},
+    {'name': 'harmonic preset names QRRHOVib', 'expect': ('TABLE.preset-class', 'presets'),
+     'edits': [('pmutt/statmech/__init__.py', "    'harmonic': {\n        'model': StatMech,\n        'vib_model': vib.HarmonicVib,", "    'harmonic': {\n        'model': StatMech,\n        'vib_model': vib.QRRHOVib,")]},
+    {'name': 'harmonic preset also sets a rotational model', 'expect': ('REF.record', 'set_statmech_model'),
+     'edits': [('pmutt/statmech/__init__.py', "    'harmonic': {\n        'model': StatMech,\n        'vib_model': vib.HarmonicVib,", "    'harmonic': {\n        'model': StatMech,\n        'rot_model': rot.RigidRotor,\n        'vib_model': vib.HarmonicVib,")]},
 ]
 EQUIV = []
